@@ -96,3 +96,79 @@ def validate_samples(summ: Summary, arch: SymArch, concrete_fn: Callable[[list],
         if norm(got) != norm(expect):
             errs.append(f"stub divergence: edges={edges} summary={expect} real={got}")
     return n, errs
+
+
+class RuleLab:
+    """Several rules on ONE symbolic architecture: summaries share the same z3 variables, so relational
+    properties (C09, C11, C12, C14, C15) are single queries over two or three summaries."""
+
+    def __init__(self, nodes, cap: int, with_message: bool = False, tag: str = "e") -> None:
+        from vf.universes import build_rule, evaluate
+
+        self.arch = SymArch(nodes, tag=tag)
+        self.cap = cap
+        self.with_message = with_message
+        self._cache: dict = {}
+        self.paths = 0
+        self.forks = 0
+        self.explore_s = 0.0
+        self.functions: set = set()
+        self.over_budget: list = []
+        self._build_rule = build_rule
+        self._evaluate = evaluate
+        self.tree_keys: set = set()
+        self.validate = 1  # sampled paths per summary replayed on the real NetworkxGraph
+        self.replays = 0
+        self.errs: list = []
+
+    def summary(self, spec, builder=None):
+        """Summary of build_rule(spec) (or builder()) on the symbolic architecture; None if over budget."""
+        key = spec if builder is None else ("custom", spec)
+        if key in self._cache:
+            return self._cache[key]
+        mk = builder or (lambda: self._build_rule(spec))
+        ev = self.arch.ev
+        wm = self.with_message
+
+        def fn():
+            return self._evaluate(mk(), ev, with_message=wm)
+
+        summ, funcs, over = explore_fn(fn, self.cap, record_functions=not self.functions)
+        self.functions |= funcs
+        if over:
+            self.paths += self.cap
+            self.over_budget.append(str(spec))
+            self._cache[key] = None
+            return None
+        self.paths += summ.paths
+        self.forks += summ.forks
+        self.explore_s += summ.explore_s
+        self.tree_keys |= summ.keys_in_tree()
+        self._cache[key] = summ
+        if self.validate:
+            wm = self.with_message
+            n, errs = validate_samples(summ, self.arch, lambda edges: self._evaluate(mk(), self.arch.real(edges), with_message=wm), k=self.validate)
+            self.replays += n
+            self.errs.extend(errs)
+        return summ
+
+    def passes(self, summ):
+        return summ.formula(lambda o: o[0] == "PASS", self.arch.pool)
+
+    def fails(self, summ):
+        return summ.formula(lambda o: o[0] == "FAIL", self.arch.pool)
+
+    def errors(self, summ):
+        return summ.formula(lambda o: o[0] == "ERROR", self.arch.pool)
+
+    def stats(self) -> dict:
+        return {
+            "paths": self.paths,
+            "forks": self.forks,
+            "explore_s": self.explore_s,
+            "functions": self.functions,
+            "variables_total": len(self.arch.pairs),
+            "dont_care_vars": len(self.arch.pairs) - len(self.tree_keys),
+            "replays": self.replays,
+            "errors": list(self.errs),
+        }
